@@ -122,4 +122,37 @@ theorem idpInitiatedGate_cases (env : Trans.Env) (idp : Trans.IdentityProvider) 
           | none => simp at h; exact ⟨h.1.symm, Or.inr (Or.inr ⟨rfl, h.2.symm⟩)⟩
           | some m => simp at h; exact ⟨h.1.symm, Or.inr (Or.inl ⟨hnf, by simp, h.2.symm⟩)⟩
 
+/-! ### the validity window the IdP writes into `Conditions` (`DefaultAssertionMaker.MakeAssertion`, the statements from
+    `notBefore := req.Now.Add(-1 * MaxClockSkew)` up to `nameIDFormat :=`; translated twice, once per yielded local) -/
+
+/-- C06: `Conditions/@NotBefore` is the later of (now − MaxClockSkew) and the request's IssueInstant; `@NotOnOrAfter` is
+    MaxIssueDelay after the request's IssueInstant in the second case and after now in the first -/
+theorem conditions_window (env : Trans.Env) (req : Trans.IdpAuthnRequest) :
+    Trans.conditionsNotBefore env (some req) = .ok (max (req.Now - env.MaxClockSkew) req.Request.IssueInstant, none) ∧
+    Trans.conditionsNotOnOrAfter env (some req) =
+      .ok (if req.Now - env.MaxClockSkew < req.Request.IssueInstant then req.Request.IssueInstant + env.MaxIssueDelay
+           else req.Now + env.MaxIssueDelay, none) := by
+  unfold Trans.conditionsNotBefore Trans.conditionsNotOnOrAfter
+  have e : req.Now + -1 * env.MaxClockSkew = req.Now - env.MaxClockSkew := by omega
+  simp only [deref_some, Outcome.ok_bind', Outcome.pure_eq_ok, e]
+  by_cases h : req.Now - env.MaxClockSkew < req.Request.IssueInstant
+  · have hm : max (req.Now - env.MaxClockSkew) req.Request.IssueInstant = req.Request.IssueInstant := by
+      rw [Int.max_def]; split <;> omega
+    simp only [h, if_true, hm]
+    exact ⟨trivial, trivial⟩
+  · have hm : max (req.Now - env.MaxClockSkew) req.Request.IssueInstant = req.Now - env.MaxClockSkew := by
+      rw [Int.max_def]; split <;> omega
+    simp only [h, if_false, hm]
+    exact ⟨trivial, trivial⟩
+
+/-- "Conditions that open no earlier than MaxClockSkew before issuance" and never later than the later of that and the request -/
+theorem conditions_notBefore_bounds (env : Trans.Env) (req : Trans.IdpAuthnRequest) (nb : Int)
+    (h : Trans.conditionsNotBefore env (some req) = .ok (nb, none)) :
+    req.Now - env.MaxClockSkew ≤ nb ∧ req.Request.IssueInstant ≤ nb ∧
+    (nb = req.Now - env.MaxClockSkew ∨ nb = req.Request.IssueInstant) := by
+  rw [(conditions_window env req).1] at h
+  simp only [Outcome.ok.injEq, Prod.mk.injEq, and_true] at h
+  rw [Int.max_def] at h
+  split at h <;> omega
+
 end SamlVerif.TransServe
